@@ -29,6 +29,7 @@ func (a *zzAcceptor) Accept() (transport.Transport, error) {
 }
 
 func (a *zzAcceptor) Close() error {
+	vrt.Yield() // every call into the mock is a scheduling point (its state is plain memory)
 	a.closes++
 	if a.closes == 1 {
 		close(a.closedC)
@@ -44,11 +45,13 @@ type zzFactory struct {
 
 func (f *zzFactory) Schemes() transport.Schemes { return transport.Schemes{"zz"} }
 func (f *zzFactory) Connect(options *transport.Options) (transport.Transport, error) {
+	vrt.Yield()
 	t := newZZTransport()
 	f.transports = append(f.transports, t)
 	return t, nil
 }
 func (f *zzFactory) Listen(options *transport.Options) (transport.Acceptor, error) {
+	vrt.Yield()
 	a := &zzAcceptor{conns: make(chan transport.Transport, 1), closedC: make(chan struct{})}
 	f.acceptors = append(f.acceptors, a)
 	return a, nil
